@@ -47,8 +47,7 @@ Record meth := mkMeth {
   me_out_pp : bool;
   me_void : bool;              (* output is google.protobuf.Empty *)
   me_lro : bool;
-  me_paged : bool;
-  me_internal : bool           (* selective generation marks the method internal: the client method gets a leading underscore *)
+  me_paged : bool
 }.
 
 Record svc := mkSvc {
@@ -65,9 +64,9 @@ Definition safe_name (n : string) : string := if mem_str (lower n) unsafe_names 
 Definition key_of (m : meth) : string := snake (safe_name (me_name m)).
 
 (* Method.client_method_name *)
+(* (methods made internal by selective generation get a leading underscore: not modelled, see C16) *)
 Definition client_name (m : meth) : string :=
-  let n := if mem_str (lower (me_name m)) PY_KWLIST then me_name m ++ "_" else me_name m in
-  snake (if me_internal m then "_" ++ n else n).
+  snake (if mem_str (lower (me_name m)) PY_KWLIST then me_name m ++ "_" else me_name m).
 
 Inductive kind := UU | US | SU | SS.
 Definition kind_of_flags (cs ss : bool) : kind :=
